@@ -23,7 +23,7 @@ package gtree
 //@   ensures lines [C17,C02]: result1 == nil ==> len(lnNodes) == len(rg.scanner.lines) && (forall j int :: {lnNodes[j]} 0 <= j && j < len(rg.scanner.lines) ==> (md.allSpace(rg.scanner.lines[j]) ==> lnNodes[j] == nil) && (!md.allSpace(rg.scanner.lines[j]) ==> lineRepr(rg.scanner.lines[j], lnNodes[j]) && (lnNodes[j].hierarchy == 1 ==> contains(result0, lnNodes[j]))))
 //@   ensures roots [C17]: result1 == nil ==> (forall k int :: {result0[k]} 0 <= k && k < len(result0) ==> result0[k] != nil && result0[k].hierarchy == 1)
 //@   ensures consumed [C17]: result1 == nil ==> rg.scanner.pos == len(rg.scanner.lines) && !rg.scanner.failed
-//@   ensures readerr [C17]: rg.scanner.failed ==> result1 == rg.scanner.err
+//@   ensures readerr [C17]: rg.scanner.failed ==> result1 != nil && errIs(result1, rg.scanner.err)
 //@   ensures blankonly [C17]: (forall j int :: {rg.scanner.lines[j]} 0 <= j && j < len(rg.scanner.lines) ==> md.allSpace(rg.scanner.lines[j])) ==> len(result0) == 0 && (result1 != nil ==> rg.scanner.failed)
 //@ loop gtree.rootGenerator.generate#1
 //@   invariant ok: wgenOK(rg)
